@@ -255,6 +255,10 @@ def name_pool(n_witnesses):
         if c in '"\n\r':
             continue
         pool += ['x%sy' % c, c if c.strip() else 'a' + c + 'b', '%sq' % c if c.strip() else 'q' + c + c + 'q']
+    # a backslash in front of every character: nothing in a name is an escape sequence
+    for code in range(33, 127):
+        if chr(code) != '"':
+            pool.append('H%s%sx' % (chr(92), chr(code)))
     s = z3.String('n')
     noq = z3.InRe(s, z3.Star(z3.Intersect(rx2z3.ASCII, z3.Complement(z3.Union(z3.Re('"'), z3.Re('\n'), z3.Re('\r'))))))
     for sp in ('{', '}', '%', chr(92), '#', "'", ' ', 'end', '[', ':'):
